@@ -2,6 +2,6 @@ SPECIFICATION DetSpec
 CONSTANTS
   Ks = {1, 2, 3, 7, 50, 1000}
   MaxRep = 3
-INVARIANT ValidCfgs
+INVARIANTS ValidCfgs NearestFirst
 PROPERTIES ObsStable FirstStays
 CHECK_DEADLOCK FALSE
